@@ -112,18 +112,32 @@ def disorder_records(pa, rng, count, rep):
         except Exception as ex:
             rep.violation("gammacat.raises", {"exception": repr(ex), "continuum": align.continuum_summary(c)})
             continue
-        for cat in [None] + LABS[:2] + ["zz"]:
+        # a second combined dissimilarity with the same alpha and delta_empty but another categorical component,
+        # evaluated on the SAME alignment object: a value must not depend on what was asked before
+        d_other, A_other = make_dissim(pa, rng)
+        tries = 0
+        while (A_other["cattype"] == A["cattype"] and A_other["M"] == A["M"]) and tries < 5:
+            d_other, A_other = make_dissim(pa, rng)
+            tries += 1
+        A_other = dict(A_other, alpha=A["alpha"], de=A["de"])
+        if A_other["cattype"] == "abs":
+            d_other = pa.CombinedCategoricalDissimilarity(alpha=A["alpha"], beta=1, delta_empty=A["de"])
+        else:
+            from sortedcontainers import SortedSet
+            d_other = pa.CombinedCategoricalDissimilarity(alpha=A["alpha"], beta=1, delta_empty=A["de"],
+                                                          cat_dissim=pa.PrecomputedCategoricalDissimilarity(SortedSet(ALLCATS), np.array(A_other["M"], dtype=np.float32) / 4, delta_empty=A["de"]))
+        for cat, dd, AA in [(x, d, A) for x in [None] + LABS[:2] + ["zz"]] + [(x, d_other, A_other) for x in [None, LABS[0]]] + [(None, d, A)]:
             try:
-                v = al.gamma_k_disorder(d, cat)
+                v = al.gamma_k_disorder(dd, cat)
             except Exception as ex:
                 rep.violation("gammacat.raises", {"exception": repr(ex), "category": cat, "continuum": align.continuum_summary(c)})
                 continue
-            recs.append({"kind": "disorder", "alpha": A["alpha"], "de": A["de"], "cattype": A["cattype"], "M": A["M"],
+            recs.append({"kind": "disorder", "alpha": AA["alpha"], "de": AA["de"], "cattype": AA["cattype"], "M": AA["M"],
                          "category": 0 if cat is None else rank[cat], "tuples": encode_alignment(al), "obs": fxv(v),
                          "observed": 0, "chance": [], "value": 0, "which": "", "raised": ""})
-            metas.append({"alignment": kind, "category": cat, "A": A, "value": float(v), "continuum": align.continuum_summary(c),
+            metas.append({"alignment": kind, "category": cat, "A": AA, "value": float(v), "continuum": align.continuum_summary(c),
                           "tuples": [[(a, None if u is None else [u.segment.start, u.segment.end, u.annotation]) for a, u in ua.n_tuple] for ua in al.unitary_alignments]})
-            rep.case(key=json.dumps([recs[-1]["tuples"], A, cat]))
+            rep.case(key=json.dumps([recs[-1]["tuples"], AA, cat]))
     return recs, metas
 
 
